@@ -6,6 +6,11 @@
 
   * `NiftiExtension.get_sizeondisk`            (460-464)  — NOT hand-written: `Nb.Gen.C11.getSizeondisk`,
                                                             regenerated from the function's AST on every run
+  * the one-line integer rules of reader and writer — loop condition, zero-size stop, read count, content-length
+    check, `size -= esize`, `extsize`, `min_vox_offset`, the three offset tests, `pad` — are NOT hand-written
+    either: `Nb.Gen.C11.{readLoopCond, zeroSizeStops, readCount, contentLenOk, sizeAfter, extSize, minVoxOffset,
+    offsetUnset, offsetTooSmall, storedBelow, padBytes}` (regen() checks the shape of the surrounding statements);
+    they are unfolded only in Lemmas/C11 `gen rules` section
   * `NiftiExtension.write_to`                  (466-495)  — `serializeExt`
   * `Nifti1Extensions.get_sizeondisk/write_to` (701-725)  — `totalSize`, `serializeExts`
   * `Nifti1Extensions.from_fileobj`            (727-795)  — `parseExtsAux` / `parseExts` (and `parseExtsOrig`,
@@ -92,7 +97,8 @@ def serializeExt (e : Endian) (x : Ext) : Except Err (List Nat) :=
   let rawsize := sizeOnDisk n
   if ¬ (inInt32 rawsize ∧ inInt32 x.code) then .error .overflow
   else
-    let pad : Int := rawsize - (8 + (n : Int))
+    -- `pad = extstart + rawsize - fileobj.tell()` (generated) with the record starting at position 0 of the model
+    let pad : Int := Nb.Gen.C11.padBytes 0 rawsize (8 + (n : Int))
     if pad < 0 then .error .value
     else .ok (encI32 e rawsize ++ encI32 e x.code ++ x.content ++ zeros pad.toNat)
 
@@ -117,21 +123,21 @@ def Ext.strip (x : Ext) : Ext := ⟨x.code, rstripNul x.content⟩
 def parseExtsAux (stopAtZero : Bool) (e : Endian) : Nat → List Nat → Int → Except Err (List Ext)
   | 0, _, _ => .error .fuel
   | fuel + 1, bs, size =>
-    if size ≥ 16 ∨ size < 0 then                        -- while size >= 16 or size < 0
+    if Nb.Gen.C11.readLoopCond size = true then         -- while size >= 16 or size < 0   (generated)
       match bs.take 8 with                               -- ext_def = fileobj.read(8)
       | [] => if size < 0 then .ok [] else .error .headerData
       | [b0, b1, b2, b3, b4, b5, b6, b7] =>
           let esize := decI32 e b0 b1 b2 b3
           let ecode := decI32 e b4 b5 b6 b7
-          if stopAtZero = true ∧ esize = 0 then .ok []
+          if stopAtZero = true ∧ Nb.Gen.C11.zeroSizeStops esize = true then .ok []   -- if esize == 0: break
           else
             let rest := bs.drop 8
-            let want : Int := esize - 8
+            let want : Int := Nb.Gen.C11.readCount esize
             -- fileobj.read(int(esize - 8)): a negative count reads everything that is left
             let ev := if want < 0 then rest else rest.take want.toNat
-            if (ev.length : Int) ≠ want then .error .headerData
+            if ¬ (Nb.Gen.C11.contentLenOk (ev.length : Int) esize = true) then .error .headerData
             else
-              (parseExtsAux stopAtZero e fuel (rest.drop want.toNat) (size - esize)).map
+              (parseExtsAux stopAtZero e fuel (rest.drop want.toNat) (Nb.Gen.C11.sizeAfter size esize)).map
                 (⟨ecode, rstripNul ev⟩ :: ·)
       | _ => .error .headerData                          -- 1..7 bytes: 'failed to read extension header'
     else .ok []
@@ -197,7 +203,7 @@ def Fmt.offNext (fmt : Fmt) (s : Nat) : Nat := if fmt.voxF32 then f32next s else
     and if the stored value fell below `m` move it one representable value up. -/
 def Fmt.offFill (fmt : Fmt) (m : Nat) : Nat :=
   let s := fmt.offRepr m
-  if s < m then fmt.offNext s else s
+  if Nb.Gen.C11.storedBelow (s : Int) (m : Int) = true then fmt.offNext s else s
 
 /-- a file that starts with a header block: value of the `vox_offset` field + every byte after the block -/
 structure HFile where
@@ -229,24 +235,24 @@ def extBlock (single : Bool) (e : Endian) (exts : List Ext) : Except Err (List N
 
 /-- the minimum-offset rule of `Nifti1Header.write_to` (882-890); `userOff = 0` means "not set" exactly as in
     the header field -/
-def minOffset (fmt : Fmt) (exts : List Ext) : Int := (fmt.singleOff : Int) + totalSize exts
+def minOffset (fmt : Fmt) (exts : List Ext) : Int := Nb.Gen.C11.minVoxOffset (fmt.singleOff : Int) (totalSize exts)
 
 /-- the rule on the total size alone.  `userOff` is what the caller assigned to `hdr['vox_offset']`; the rule
     reads the field back (`fmt.offRepr userOff`), and when it fills the field in itself
     (`self._structarr['vox_offset'] = min_vox_offset`) the value it leaves there is `fmt.offFill` of it. -/
 def chooseOffsetT (fmt : Fmt) (total : Int) (userOff : Nat) : Except Err Int :=
   let u := fmt.offRepr userOff
-  let mn : Int := (fmt.singleOff : Int) + total
-  if u = 0 then .ok ((fmt.offFill mn.toNat : Nat) : Int)
-  else if (u : Int) < mn then .error .headerData
+  let mn : Int := Nb.Gen.C11.minVoxOffset (fmt.singleOff : Int) total
+  if Nb.Gen.C11.offsetUnset (u : Int) = true then .ok ((fmt.offFill mn.toNat : Nat) : Int)
+  else if Nb.Gen.C11.offsetTooSmall (u : Int) mn = true then .error .headerData
   else .ok (u : Int)
 
 /-- the rule before that fix: the minimum is assigned to the field and whatever the field keeps is used -/
 def chooseOffsetTOrig (fmt : Fmt) (total : Int) (userOff : Nat) : Except Err Int :=
   let u := fmt.offRepr userOff
-  let mn : Int := (fmt.singleOff : Int) + total
-  if u = 0 then .ok ((fmt.offRepr mn.toNat : Nat) : Int)
-  else if (u : Int) < mn then .error .headerData
+  let mn : Int := Nb.Gen.C11.minVoxOffset (fmt.singleOff : Int) total
+  if Nb.Gen.C11.offsetUnset (u : Int) = true then .ok ((fmt.offRepr mn.toNat : Nat) : Int)
+  else if Nb.Gen.C11.offsetTooSmall (u : Int) mn = true then .error .headerData
   else .ok (u : Int)
 
 def chooseOffset (fmt : Fmt) (exts : List Ext) (userOff : Nat) : Except Err Int :=
@@ -295,7 +301,8 @@ def readExtsAfter (single : Bool) (fmt : Fmt) (e : Endian) (f : HFile) : Except 
   | [s0, _, _, _] =>
       if s0 = 0 then .ok []
       else
-        let extsize : Int := if single then (f.voxOffset : Int) - ((fmt.hdrSize : Int) + 4) else -1
+        -- `extsize = hdr._structarr['vox_offset'] - fileobj.tell()` (generated), tell = block + extender
+        let extsize : Int := if single then Nb.Gen.C11.extSize (f.voxOffset : Int) ((fmt.hdrSize : Int) + 4) else -1
         parseExts e (f.after.drop 4) extsize
   | _ => .ok []
 
